@@ -452,6 +452,9 @@ impl Task for QueryTask {
     fn max_parallelism(&self) -> usize {
         self.partitions.len()
     }
+    fn abort(&self) {
+        self.fail_with_no_lock(fatal!("Query execution panicked."));
+    }
 }
 
 impl BasicTypeColumn {
